@@ -5,6 +5,7 @@ package dnk
 
 import (
 	"context"
+	"errors"
 	"fmt"
 	"sync"
 	"time"
@@ -52,6 +53,9 @@ type Case struct {
 	Datagram bool `json:"datagram,omitempty"`
 	// Readers: number of goroutines calling ReadDataPoints concurrently (0 = 1)
 	Readers int `json:"readers,omitempty"`
+	// ReadPollUs > 0: the application polls - every ReadDataPoints call gets its own context that ends after that many
+	// microseconds (1 = practically expired on entry); a call that returns the context error is simply repeated
+	ReadPollUs int `json:"read_poll_us,omitempty"`
 }
 
 func DataID(i int) *message.DataID {
@@ -93,6 +97,7 @@ func Gen(t *rapid.T, maxItems int, withNegative bool) Case {
 	c := Case{
 		Codec:      rapid.SampledFrom([]string{"proto", "json"}).Draw(t, "codec"),
 		QoS:        rapid.IntRange(0, 2).Draw(t, "qos"),
+		ReadPollUs: rapid.SampledFrom([]int{0, 0, 0, 1, 50, 300}).Draw(t, "readpoll"),
 		PreIDs:     rapid.IntRange(0, 3).Draw(t, "pre"),
 		Sources:    rapid.IntRange(1, 3).Draw(t, "sources"),
 		AckFlushMs: rapid.SampledFrom([]int{1, 2, 5, 10}).Draw(t, "ackflush"),
@@ -182,10 +187,18 @@ const perCall = 10 * time.Second
 func readLoop(rctx context.Context, rwg *sync.WaitGroup, rmu *sync.Mutex, h *History, down *iscp.Downstream, c Case) {
 	defer rwg.Done()
 	for {
-		ch, err := down.ReadDataPoints(rctx)
+		pctx, pcancel := rctx, context.CancelFunc(func() {})
+		if c.ReadPollUs > 0 {
+			pctx, pcancel = context.WithTimeout(rctx, time.Duration(c.ReadPollUs)*time.Microsecond)
+		}
+		ch, err := down.ReadDataPoints(pctx)
+		pcancel()
 		if err != nil {
 			if rctx.Err() != nil || err == context.Canceled {
 				return
+			}
+			if c.ReadPollUs > 0 && errors.Is(err, context.DeadlineExceeded) {
+				continue // poll again
 			}
 			rmu.Lock()
 			h.ReadErrs = append(h.ReadErrs, err.Error())
